@@ -47,6 +47,7 @@ func New(options ...func(pushers.Channel) error) (pushers.Channel, error) {
 			Mode:    os.FileMode(0600),
 		},
 		request: make(chan map[string]interface{}),
+		done:    make(chan struct{}),
 	}
 
 	for _, optionFn := range options {
@@ -89,10 +90,17 @@ type FileBackend struct {
 	FileConfig
 
 	request chan map[string]interface{}
+
+	// closed when the writer goroutine has finished
+	done chan struct{}
 }
 
+// Close stops the writer and waits until it has written what it still holds:
+// a caller that removes the log directory right after Close must not race
+// with a rotation in progress.
 func (f *FileBackend) Close() {
 	close(f.request)
+	<-f.done
 }
 
 // Send delivers the giving if it passes all filtering criteria into the
@@ -112,6 +120,8 @@ func (f *FileBackend) Send(message event.Event) {
 
 // syncLoop handles configuration of the giving loop for writing to file.
 func (f *FileBackend) writeLoop() {
+	defer close(f.done)
+
 	dest, err := OpenRotateFile(f.File, f.Mode, f.MaxSize)
 	if err != nil {
 		log.Errorf("Failed create destination file: %s", err)
@@ -132,6 +142,12 @@ func (f *FileBackend) writeLoop() {
 		select {
 		case req, ok := <-f.request:
 			if !ok {
+				// closed: write the pending batch before leaving
+				if _, err := io.Copy(dest, &buf); err != nil {
+					log.Errorf("Failed to copy data to File : %+q", err)
+				}
+
+				dest.Sync()
 				return
 			}
 
